@@ -34,7 +34,7 @@ func main() {
 		"a real Badger store history with ~66 real/aliased/out-of-range input slots judged against the written bodies, then random views x " +
 		"builders of all 11 transaction types with 45% payload mutants and 20% signature mutants, 5% byte-mutated encodings, " +
 		"5% inconsistent views; non-trivial = accepted or the validation reached the store (references / inputs / outputs); " +
-		"distinct by hash of (view, transaction, ts, fork)."
+		"distinct by hash of (view, transaction, ts, fork). Every case is run under both values of the fork flag (implementation + oracle; the twin is also sent to the model when its decision differs)."
 	opt := valsim.Options{OracleC01: true}
 	if c.Replay != "" {
 		var cs valsim.Case
